@@ -19,12 +19,18 @@ import (
 	"os"
 	"strings"
 	"testing"
+	"time"
 )
 
 func c05Run(src string, noReg bool) string {
-	o := Options{All: true, ShowEval: true, NoColor: true, Compact: true, NoReg: noReg, AutoLoad: false, AutoSave: false}
+	// every generated program terminates within milliseconds; the deadline only cuts runaway loops of a broken tree
+	o := Options{All: true, ShowEval: true, NoColor: true, Compact: true, NoReg: noReg, AutoLoad: false, AutoSave: false, MaxDuration: 3 * time.Second}
 	res, errs, _ := EvalStringWithOption(context.Background(), o, src)
-	return res + "\n--errs--\n" + strings.Join(errs, "\n")
+	all := res + "\n--errs--\n" + strings.Join(errs, "\n")
+	if strings.Contains(all, "deadline exceeded") {
+		return "TIMEOUT (3s)"
+	}
+	return all
 }
 
 type c05gen struct {
@@ -95,6 +101,11 @@ func (g *c05gen) loop(ints []string, depth int, inFunc bool, acc string) string 
 		body = append(body, fmt.Sprintf("if %s > %s { break }", g.intExpr(in, 1), g.intExpr(in, 1)))
 	}
 	body = append(body, fmt.Sprintf("%s = %s + %s", acc, acc, g.intExpr(in, 2)))
+	if g.r.Intn(5) == 0 {
+		// assignment to the loop variable inside the body (the variable is never read after the loop)
+		body = append(body, fmt.Sprintf("if %s == %d { %s = %s }", v, lo+g.r.Intn(3), v, g.intExpr(in, 1)))
+		body = append(body, fmt.Sprintf("%s = %s + %s", acc, acc, v))
+	}
 	if g.r.Intn(3) == 0 {
 		body = append(body, fmt.Sprintf("print(%s, \" \")", g.intExpr(in, 1)))
 	}
@@ -254,6 +265,8 @@ var c05Witnesses = []struct{ id, src string }{
 	{"function-literal-in-loop", "for k = 0:3 { f = func() { 1 } }\nprintln(f())\n"},
 	{"param-assigned-non-integer", "func f(a) { a = \"s\"; a }\nprintln(f(1))\n"},
 	{"loopvar-is-register", "func f(a) { for a = 0:2 { println(a) }; a }\nprintln(f(5))\n"},
+	{"loopvar-incremented-in-body", "for i = 0:5 { i++; println(i) }\n"},
+	{"register-named-in-error", "func h(a) { a[5] }\nh(1)\n"},
 	{"loopvar-is-outer-loopvar", "for i = 0:2 { for i = 0:2 { println(i) } }\n"},
 }
 
@@ -270,6 +283,9 @@ func TestVerifBoundedRegisters(t *testing.T) {
 		a, b := c05Run(src, false), c05Run(src, true)
 		if a != b {
 			fails++
+			if fails > 20 {
+				break // a broken tree: enough evidence
+			}
 			if fails <= 3 {
 				fmt.Printf("BOUNDED-FAIL registers on/off differ for generated program seed=%d: %q: with registers %q, without %q\n", seed, src, a, b)
 			}
